@@ -831,7 +831,14 @@ func (s *TxStore) Rollback(tx mwdb.DBTransaction, height uint64) error {
 				continue
 			}
 
-			err = putRawUnmined(nsUnmined, txHash[:], recVal)
+			// The mined record value only holds locations; the pending
+			// bucket stores the serialized transaction itself.
+			rec.Received = rbBlock.Timestamp
+			unminedVal, err := valueUnmined(&rec)
+			if err != nil {
+				return err
+			}
+			err = putRawUnmined(nsUnmined, txHash[:], unminedVal)
 			if err != nil {
 				return err
 			}
